@@ -160,8 +160,11 @@ def _is_try_line(code, line: int) -> bool:
     v = _try_cache.get(key)
     if v is None:
         import linecache
-        v = linecache.getline(code.co_filename, line).strip() in (
-            "try:", "else:", "finally:")
+        txt = linecache.getline(code.co_filename, line).strip()
+        # (... and a ``with`` line is reported a second time when
+        # __enter__ has returned, at an instruction that precedes the
+        # protected region: same artefact)
+        v = txt in ("try:", "else:", "finally:") or txt.startswith("with ")
         _try_cache[key] = v
     return v
 
